@@ -108,9 +108,10 @@ class SInt:
 
     def __mod__(s, o):
         o = SInt.of(o)
-        if o.v == 0 or o.v & (o.v - 1):
-            raise Reject("modulo is documented for 2^n values only")
+        if o.v == 0:
+            raise Reject("modulo by zero (ZeroDivisionError in Python)")
         s.need_exact()
+        o.need_exact()
         return SInt(max(s.w, o.w), s.v % o.v)
 
     def __and__(s, o): return s._bin(o, lambda a, b: a & b)
